@@ -43,6 +43,16 @@ CHECKS.update({
    text="Replay.tla model-checks the algorithm of persist.go over a contract-abiding store for every log length, start, batch size and fault position; the conformance step executes that whole product on memory, SQLite (stream, batched, paged) and durable-streams stores behind fault-injecting wrappers and accepts a run only if the callback saw exactly the next due event each time, nil was returned only after all of them, and every injected failure or cancellation was reported.",
    note=STORENOTE+" Exhaustive within N<=5 (quick) / N<=9 (thorough) events. SQLite row-level read errors are injected at the EventStore interface (wrapper), not inside database/sql.", ref="DESIGN.md 5/C11, 4.4"),
 })
+
+PNOTE="Trusted: TLC, the fault-injecting store wrapper (fails / blocks Append according to the publish kind carried in the context), the harness' reading of the store from inside handlers. JSON round-trip breadth over values is random generation."
+CHECKS.update({
+ "C09": dict(technique="TLA+ spec Persist.tla: exhaustive TLC over all permutations of the option sets x publish kinds (+ pre-fix mutant); option orders and fault patterns executed on the real bus and validated against PersistTrace.tla; concurrent publishers validated against LogTrace.tla",
+   text="Persist.tla model-checks option application and the persist step for every option permutation; on the real bus every permutation of WithStore with up to two other options and random larger orders are executed with handlers that read the store from inside, and each run must be accepted by the acceptor that mirrors the model's invariants (one record per publish, readable before any handler, increasing offsets); records of concurrent publishers are read back and must form a behaviour of Log.tla (one record each, offsets increasing along the log and consistent with real time).",
+   note=PNOTE, ref="DESIGN.md 5/C09, 4.5"),
+ "C13": dict(technique="TLA+ spec Persist.tla (failure kinds: unencodable, append error, timeout): exhaustive TLC; fault patterns executed on the real bus over memory and SQLite stores behind a fault-injecting wrapper, validated against PersistTrace.tla",
+   text="Contained / ReportedOnce / NoRetry / NothingWritten / LastOffsetOnlySuccess are invariants of Persist.tla over all option orders and fault patterns up to 3 publishes; the real bus is driven through random fault patterns (including failure on the first publish of a fresh bus and consecutive failures) and accepted only if every handler still ran, the error handler was called exactly once with the event and its type, Append was attempted at most once and never for an unencodable event, and the store's record count moved only on success.",
+   note=PNOTE, ref="DESIGN.md 5/C13, 4.5"),
+})
 checks=[]
 for p in props:
     c=CHECKS.get(p['id'])
